@@ -89,7 +89,9 @@ class FieldArrayModel(FieldCompositeModel):
         # Set the size field for arrays that don't
         # have a random size
         if self.is_rand_sz:
-            self.size.set_used_rand(True)
+            # The size is solved for in the calls in which the 
+            # list itself is random
+            self.size.set_used_rand(self.is_used_rand)
         else:
             self._set_size(len(self.field_l))
         # Reduction expressions are specific to a randomization call
